@@ -42,6 +42,9 @@ type Case struct {
 	// (the listing used to compute the pending files works): whatever the edit, the run must fail,
 	// execute nothing and leave the history as it was.
 	ReadFault int `json:"read_fault,omitempty"`
+	// OpVer: every attempt runs as another release of the tool (operator version v1, v2, …), as after
+	// an upgrade between a failed apply and its re-run.
+	OpVer bool `json:"opver,omitempty"`
 }
 
 func init() {
@@ -97,6 +100,14 @@ func write(dir *migrate.MemDir, cs Case, stmts []string) {
 	migrate.WriteSumFile(dir, sum)
 }
 
+func newExec(cs Case, w *world.World, dir migrate.Dir) (*migrate.Executor, error) {
+	if cs.OpVer {
+		w.Attempt++
+		return migrate.NewExecutor(w, dir, w, migrate.WithOperatorVersion(fmt.Sprintf("Atlas CLI v0.%d", w.Attempt)))
+	}
+	return migrate.NewExecutor(w, dir, w)
+}
+
 func one(cs Case) (why, key string, trace []string) {
 	o := orig(cs.N, cs.Text)
 	ver := fmt.Sprint(cs.Extra + 1)
@@ -107,7 +118,7 @@ func one(cs Case) (why, key string, trace []string) {
 	if cs.K0 > 0 {
 		// first attempt stops after K0 statements …
 		w.FailExec = cs.Extra + cs.K0 + 1
-		ex0, err := migrate.NewExecutor(w, dir, w)
+		ex0, err := newExec(cs, w, dir)
 		if err != nil {
 			return "NewExecutor: " + err.Error(), "setup", nil
 		}
@@ -123,7 +134,7 @@ func one(cs Case) (why, key string, trace []string) {
 		// write schedule is)
 		w.FailWriteIf = func(r *migrate.Revision) bool { return r.Error != "" }
 	}
-	ex, err := migrate.NewExecutor(w, dir, w)
+	ex, err := newExec(cs, w, dir)
 	if err != nil {
 		return "NewExecutor: " + err.Error(), "setup", nil
 	}
@@ -138,7 +149,7 @@ func one(cs Case) (why, key string, trace []string) {
 		write(dir, cs, cs.Mid)
 		w.ExecN, w.WriteN, w.FailWrite = 0, 0, 0
 		w.FailExec = cs.KMid - cs.K + 1
-		exm, err := migrate.NewExecutor(w, dir, w)
+		exm, err := newExec(cs, w, dir)
 		if err != nil {
 			return "NewExecutor: " + err.Error(), "setup", nil
 		}
@@ -164,7 +175,7 @@ func one(cs Case) (why, key string, trace []string) {
 	var rerr error
 	defer func() { trace = world.EvStrings(w.Log[start:]) }()
 	if p, val, st := rt.Try(func() {
-		ex2, err := migrate.NewExecutor(w, dir, w)
+		ex2, err := newExec(cs, w, dir)
 		if err != nil {
 			rerr = err
 			return
@@ -219,7 +230,7 @@ func one(cs Case) (why, key string, trace []string) {
 		mark := len(w.Log)
 		var ferr error
 		if p, val, st := rt.Try(func() {
-			ex3, err := migrate.NewExecutor(w, dir, w)
+			ex3, err := newExec(cs, w, dir)
 			if err != nil {
 				ferr = err
 				return
@@ -275,6 +286,9 @@ func run(c *rt.Ctx) {
 				for k := 0; k < n; k++ { // k = 0: the first statement failed, nothing is applied yet
 					add := func(name string, out []string) {
 						cases = append(cases, Case{N: n, K: k, Edit: name, Out: out, Extra: extra, Style: style})
+						if n <= 4 && extra == 0 && style == "nl" {
+							cases = append(cases, Case{N: n, K: k, Edit: name, Out: out, Extra: extra, Style: style, OpVer: true})
+						}
 						if k > 0 {
 							cases = append(cases, Case{N: n, K: k, Edit: name, Out: out, Extra: extra, Style: style, Crash: true})
 						}
@@ -409,12 +423,15 @@ func run(c *rt.Ctx) {
 		}
 		c.Count("edit:"+kind, 1)
 		c.Count("class:"+cls, 1)
-		c.Eval(rt.Digest(cs.N, cs.K, cs.K0, cs.Edit, cs.Extra, cs.Style, cs.Crash, cs.Text, tr), cs.Edit != "none")
+		c.Eval(rt.Digest(cs.N, cs.K, cs.K0, cs.Edit, cs.Extra, cs.Style, cs.Crash, cs.Text, cs.OpVer, tr), cs.Edit != "none")
 		if cs.K0 > 0 {
 			c.Count("setup:two-stage(progress partly recorded by a resumed run)", 1)
 		}
 		if cs.Crash {
 			c.Count("setup:crash-state(no error text)", 1)
+		}
+		if cs.OpVer {
+			c.Count("setup:operator-version-differs-between-attempts", 1)
 		}
 		if why == "" && key == "read-fault-not-reached" {
 			c.Count("read-fault:not-reached(no observation)", 1)
